@@ -198,7 +198,7 @@ func runC18Trial(cs c18Case) (rule, detail string) {
 func genC18Case(rt *rapid.T) c18Case {
 	ops := []string{"Pull", "Publish"}
 	keys := []string{"subscription", "topic", "service"}
-	vals := []string{"a", "b"}
+	vals := []string{"a", "a", "b", "b", ""} // an empty value is a value: it matches a present empty parameter, not an absent one
 	genParams := func(label string, max int) map[string]string {
 		n := rapid.IntRange(0, max).Draw(rt, label+"-n")
 		m := map[string]string{}
@@ -322,7 +322,7 @@ func c18Interceptor(t *testing.T) {
 		icpt := mbgrpc.UnaryFaultInjector(set)
 		// one injected fault
 		fk := rapid.IntRange(0, 4).Draw(rt, "fkind")
-		fv := rapid.SampledFrom([]string{"a", "b"}).Draw(rt, "fval")
+		fv := rapid.SampledFrom([]string{"a", "a", "b", "b", ""}).Draw(rt, "fval")
 		target := mk(fk, fv)
 		op := target.method[len(target.method)-len(methodName(target.method)):]
 		count := rapid.IntRange(1, 4).Draw(rt, "count")
